@@ -6,7 +6,7 @@
    interleaving of create (serialised or overlapped) / control / destroy / cleanup / kill requests
    and task deaths, any oracle values (launch outcomes, refusals, failing stage of a creation), executor / agent failures
    (OFail: the affected tasks keep their parent role but are not locked any more). *)
-From Verif Require Import Common Ownership Teardown OwnSpec OwnInv_proofs OwnThm_proofs.
+From Verif Require Import Gen_CleanupAtomic Common Ownership Teardown OwnSpec OwnInv_proofs OwnThm_proofs.
 Open Scope N_scope.
 
 (* --- "control, release and kill operations issued for one environment never affect tasks owned by
@@ -55,6 +55,19 @@ Theorem C04_cleanup_safe : forall s o s' u,
   s_envs s' = s_envs s /\ o_cmds u = [].
 Proof. exact cleanup_safe. Qed.
 Print Assumptions C04_cleanup_safe.
+
+(* --- no stale reads in the cleanup path: Manager.Cleanup computes its list of unlocked tasks and kills it
+       with no lock acquisition / channel operation / sleep in between (first conjunct: read from the source
+       on every run, gen/Gen_CleanupAtomic.v), so a Cleanup that acts on a list computed earlier - other
+       requests, claims, re-locking status updates having run in between - still keeps every task that is
+       locked at the moment of the kill and KILLs only tasks that are unlocked then. *)
+Theorem C04_cleanup_never_stale :
+  cleanup_no_block = true /\
+  forall ids r,
+    (forall t, In t r -> is_locked t = true -> In t (fst (stale_cleanup ids r))) /\
+    (forall k, In k (snd (stale_cleanup ids r)) -> exists t, In t r /\ t_id t = k /\ is_locked t = false).
+Proof. exact cleanup_never_stale. Qed.
+Print Assumptions C04_cleanup_never_stale.
 
 (* --- "every deployed task is owned by at most one environment at a time": in every reachable state
        a task has one roster entry, its owner (if any) is the environment it was launched for, an
